@@ -166,6 +166,44 @@ theorem stopped_workers_hold_nothing_partial (c : CaseCfg) (steps : List Step) (
   intro w hs aid a g hal hn
   exact ((j_always c steps hns).core hs).free aid a g hal hn
 
+/-- (progress, safety form — `_partial` under `noStaleRun`) For every configuration and EVERY sequence of
+operations without a stale completion, while the factory has not entered `post_stop`: a job queued for a worker
+(`message_queue` non-empty) waits only behind
+(i) a job that this worker's live actor holds (running or in its mailbox), or
+(ii) a completion report of this worker that the factory has still to process, or
+(iii) the death of this worker, whose supervision event the factory has still to process —
+and each of the three ends with the head of the queue being handed over (`worker_complete`, `replace_worker`).
+So no job is ever parked in a worker's queue behind nothing: "ends in a fate" needs only that workers return and
+that the factory's mailbox is served. (Factory queue of the queuer: `C14.queuer_never_idles`.) -/
+theorem queued_jobs_wait_behind_work_partial (c : CaseCfg) (steps : List Step) (hns : noStaleRun (init c) steps = true) :
+    let w := (init c).runSteps steps
+    w.stopped = false → ∀ p ∈ w.pool, p.mq ≠ [] →
+      ∃ a, w.env.getActor p.actor = some a ∧
+        ((a.alive = true ∧ (a.heldJobs ≠ [] ∨ finKeys p.wid w.inbox ≠ [])) ∨
+         (a.alive = false ∧ p.actor ∈ w.env.sup)) := by
+  intro w hs p hp hmq
+  have hc := (j_always c steps hns).core hs
+  obtain ⟨a, g, _, hal, hdead⟩ := hc.sa p hp
+  refine ⟨a, g, ?_⟩
+  cases hx : a.alive with
+  | false => exact Or.inr ⟨rfl, (hdead hx).1⟩
+  | true =>
+    left
+    refine ⟨rfl, ?_⟩
+    have hcurr : p.curr ≠ [] := by
+      rcases hc.prog p hp (by simp) hmq with h1 | ⟨a', g', hd'⟩
+      · exact h1
+      · rw [g] at g'; cases g'; rw [hx] at hd'; cases hd'
+    have heq := (hal hx).2
+    by_cases hh : a.heldJobs = []
+    · right
+      intro hf
+      have : fkOf w.inbox p.wid = [] := hf
+      rw [hh, this] at heq
+      simp only [List.map_nil, List.append_nil, List.map_eq_nil_iff] at heq
+      exact hcurr heq
+    · exact Or.inl hh
+
 /-! ## The factory never reaches its `panic!` -/
 
 /-- (`RouteResult::Backlog` with a targeted worker, `try_route_next_active_job`: `panic!`, which would kill the
@@ -358,6 +396,7 @@ end C13
 #print axioms C13.one_job_per_death_partial
 #print axioms C13.one_job_lost_per_death_partial
 #print axioms C13.stopped_workers_hold_nothing_partial
+#print axioms C13.queued_jobs_wait_behind_work_partial
 #print axioms C13.never_panics
 #print axioms C13.targeted_route_never_backlogs
 #print axioms C13.die_loses_only_held
